@@ -476,6 +476,9 @@ impl Scheduler {
                     // Need to drop the lock so we can safely run the queue
                     mem::drop(ready);
 
+                    // Set the queue as active (it's marked as panicked if one of the jobs we run for it panics)
+                    let _active = ActiveQueue { queue: &*queue };
+
                     // We're now running the queue: try to run jobs on it until it's ready
                     while !*ready_mutex.lock().unwrap() {
                         match JobQueue::run_one_job_now(queue) {
